@@ -7,11 +7,12 @@
        components appear *inline* (a ModuleSection / ComponentSection payload, then the nested body's
        Version, its sections and its End), so every level has to skip what belongs to its children;
      - [parse] mirrors the loop of parse_comp: the per-level `stack` (only its length is ever
-       inspected), "an End pops, then everything is skipped while the stack is non-empty", the push a
-       nested parse makes on its *parent's* stack for every module / component section *it handles*
-       (component.rs:325,344 -- one entry per direct child: grandchildren are never counted, D14),
-       the run-length section log `sections : Vec<(count, kind)>` (add_to_sections), the per-kind item
-       vectors, the component-name section which is consumed rather than logged;
+       inspected), "an End pops, then, while the stack is non-empty, the payload is skipped -- except that a
+       ModuleSection / ComponentSection payload pushes" (the skipping loop follows the nesting of the inline
+       payloads itself, so the End that closes the direct child is the one that empties the stack, whatever
+       the child contains; nothing is pushed on a parent's stack), the run-length section log
+       `sections : Vec<(count, kind)>` (add_to_sections), the per-kind item vectors, the component-name
+       section which is consumed rather than logged;
      - [replay] mirrors encode_comp: the log is replayed with one cursor per kind, a start run emits
        `start_section[0]` once after asserting there is exactly one, and a freshly built component-name
        section is always appended.
@@ -164,39 +165,43 @@ Definition add_name (a : ir) (e : N * N) : ir :=
 Definition add_names (a : ir) (es : list (N * N)) : ir := fold_left add_name es a.
 
 (* ------------------------------------------------------------------------------------------ *)
-(* parse_comp.  State of the loop: (length of this level's `stack`, number of entries this call has pushed on
-   `parent_stack`, the vectors collected so far).  [nested] is the recursive call of parse_comp on the byte
-   range of a nested component: it returns the nested IR and how many entries it pushed on *our* stack. *)
-Definition pstate := (N * N * ir)%type.
+(* parse_comp.  State of the loop: (length of this level's `stack`, the vectors collected so far).  [nested] is the
+   recursive call of parse_comp on the byte range of a nested component: it returns the nested IR. *)
+Definition pstate := (N * ir)%type.
 
-Definition step (nested : list payload -> ir * N) (st : pstate) (p : payload) : pstate :=
-  let '(stack, pushed, a) := st in
+Definition step (nested : list payload -> ir) (st : pstate) (p : payload) : pstate :=
+  let '(stack, a) := st in
   (* if let Payload::End(..) = payload { if !stack.is_empty() { stack.pop(); } } *)
   let stack := match p with PEnd => N.pred stack | _ => stack end in
-  (* if !stack.is_empty() { continue; } *)
-  if negb (stack =? 0) then (stack, pushed, a)
+  if negb (stack =? 0)
+  then
+    (* if !stack.is_empty() { match payload { ModuleSection => stack.push(Module),
+                                               ComponentSection => stack.push(Component), _ => {} } continue; } *)
+    match p with
+    | PModule _ _ | PComponent _ => (stack + 1, a)
+    | _ => (stack, a)
+    end
   else match p with
-       | PSec k its => (0, pushed, add_items a k its)
+       | PSec k its => (0, add_items a k its)
        | PModule tok _ =>
-           (* parent_stack.push(Module); stack.push(Module); modules.push(Module::parse_internal(..)) *)
-           (1, pushed + 1, add_mod a tok)
+           (* stack.push(Module); modules.push(Module::parse_internal(..)) *)
+           (1, add_mod a tok)
        | PComponent body =>
-           (* parent_stack.push(Component); stack.push(Component); parse_comp(.., &mut stack) *)
-           let '(sub, n) := nested (stream body) in
-           (1 + n, pushed + 1, add_comp a sub)
-       | PCustom t => (0, pushed, add_custom a t)
-       | PStart t => (0, pushed, add_start a t)
-       | PNames es => (0, pushed, add_names a es)
-       | PVersion | PEnd => (0, pushed, a)
+           (* stack.push(Component); components.push(parse_comp(nested_section(..), ..)) *)
+           (1, add_comp a (nested (stream body)))
+       | PCustom t => (0, add_custom a t)
+       | PStart t => (0, add_start a t)
+       | PNames es => (0, add_names a es)
+       | PVersion | PEnd => (0, a)
        end.
 
-Definition init_state : pstate := (0, 0, empty_ir).
+Definition init_state : pstate := (0, empty_ir).
 
 (* fuel = nesting depth still allowed (the recursion of parse_comp is on the nested byte range) *)
-Fixpoint parse_fuel (fuel : nat) (ps : list payload) : ir * N :=
+Fixpoint parse_fuel (fuel : nat) (ps : list payload) : ir :=
   match fuel with
-  | O => (empty_ir, 0)
-  | S f => let '(_, pushed, a) := fold_left (step (parse_fuel f)) ps init_state in (a, pushed)
+  | O => empty_ir
+  | S f => snd (fold_left (step (parse_fuel f)) ps init_state)
   end.
 
 Fixpoint depth_node (nd : node) : nat :=
@@ -208,7 +213,7 @@ Fixpoint depth_node (nd : node) : nat :=
 Definition depth (cs : list node) : nat := fold_right (fun c d => Nat.max (depth_node c) d) O cs.
 
 (* Component::parse *)
-Definition parse (cs : list node) : ir := fst (parse_fuel (S (depth cs)) (stream cs)).
+Definition parse (cs : list node) : ir := parse_fuel (S (depth cs)) (stream cs).
 
 (* ------------------------------------------------------------------------------------------ *)
 (* encode_comp *)
